@@ -37,7 +37,8 @@ pub struct DfsStats {
     pub truncated: bool,
     pub max_points: usize,
     /// outcomes of complete paths that the caller's judge flagged
-    pub flagged: Vec<(Scn, Outcome)>,
+    pub flagged: Vec<(Scn, Outcome, bool)>,
+    pub known_hits: u64,
     pub matrix: std::collections::BTreeMap<String, u64>,
     pub complete_ok: u64,
     pub digest: u64,
@@ -95,7 +96,8 @@ impl Fates for DfsFates<'_> {
     }
 }
 
-pub fn explore(spec: &DfsSpec, judge_flags: &dyn Fn(&Scn, &Outcome) -> bool) -> DfsStats {
+/// `judge_flags` returns (complaint?, complaint identified as a known defect?).
+pub fn explore(spec: &DfsSpec, judge_flags: &dyn Fn(&Scn, &Outcome) -> (bool, bool)) -> DfsStats {
     let mut st = DfsStats::default();
     let mut visited: HashMap<u64, usize> = HashMap::new();
     let mut stack: Vec<Vec<Fate>> = vec![vec![]];
@@ -158,9 +160,15 @@ pub fn explore(spec: &DfsSpec, judge_flags: &dyn Fn(&Scn, &Outcome) -> bool) -> 
         }
         let mut scn = spec.scn.clone();
         scn.sched = Sched::Explicit(o.applied_faults());
-        if judge_flags(&scn, &o) {
-            st.flagged.push((scn, o));
-            if st.flagged.len() >= 6 {
+        let (flag, known) = judge_flags(&scn, &o);
+        if flag && known {
+            st.known_hits += 1;
+            if !st.flagged.iter().any(|(_, _, k)| *k) {
+                st.flagged.push((scn, o, true));
+            }
+        } else if flag {
+            st.flagged.push((scn, o, false));
+            if st.flagged.iter().filter(|(_, _, k)| !*k).count() >= 6 {
                 // the variant already fails: no point in enumerating the rest
                 st.truncated = true;
                 break;
